@@ -39,7 +39,9 @@ def inoculate(data_graph: rdflib.Graph, ontology: GraphLike) -> rdflib.Graph:
         data_graph_prefixes = {p: n for (p, n) in data_graph_ns.namespaces()}
         for p, n in ontology_ns.namespaces():
             if p not in data_graph_prefixes:
-                data_graph_ns.bind(p, n)
+                # override=False: a namespace the DataGraph already binds keeps the DataGraph's own prefix
+                # (CURIEs given by the caller, e.g. in focus_nodes, are written with the DataGraph's prefixes)
+                data_graph_ns.bind(p, n, override=False)
 
     for ont_class in chain(RDFS_classes, OWL_classes):
         found_s = list(ontology.subjects(RDF.type, ont_class))
